@@ -442,6 +442,11 @@ pub fn gen_enum(ctx: &mut Ctx, o: &FOpts) -> Option<FCase> {
 pub fn gen_enum_prim(ctx: &mut Ctx, _o: &FOpts) -> Option<FCase> {
     let nv = 1 + ctx.choose(3);
     let fallible = ctx.flag();
+    // the primitive counterpart: i32, or `&'static str` with string literals / string patterns (owned kinds only)
+    let strs = ctx.flag();
+    if strs {
+        return gen_enum_prim_str(ctx, nv, fallible);
+    }
     let mut variants = vec![];
     let mut tags = vec!["host=enum-prim".to_string()];
     let mut any_pattern = false;
@@ -476,6 +481,98 @@ pub fn gen_enum_prim(ctx: &mut Ctx, _o: &FOpts) -> Option<FCase> {
         item.attrs.push(Instr::new("map", None, "i32| _ => panic!()"));
     }
     tags.push(format!("fallible={}", fallible));
+    Some(FCase { item, tags })
+}
+
+fn gen_enum_prim_str(ctx: &mut Ctx, nv: usize, fallible: bool) -> Option<FCase> {
+    let mut variants = vec![];
+    let mut tags = vec!["host=enum-prim".to_string(), "prim=str".to_string()];
+    for k in 0..nv {
+        let mut v = Variant { attrs: vec![], name: ["A", "B", "C"][k].into(), shape: Shape::Unit, fields: vec![] };
+        let c = ctx.choose(4);
+        tags.push(format!("v{}={}", k, c));
+        match c {
+            0 => v.attrs.push(Instr::new("literal", None, &format!("\"l{}\"", k))),
+            1 => {
+                v.attrs.push(Instr::new("pattern", None, &format!("\"p{}a\" | \"p{}b\"", k, k)));
+                v.attrs.push(Instr::new("into", None, &format!("{{ \"p{}a\" }}", k)));
+            }
+            2 => {
+                v.attrs.push(Instr::new("pattern", None, "_"));
+                v.attrs.push(Instr::new("into", None, &format!("{{ \"w{}\" }}", k)));
+            }
+            _ => v.attrs.push(Instr::new("ghost", None, &format!("{{ \"g{}\" }}", k))),
+        }
+        variants.push(v);
+    }
+    let mut item = Item::new_enum("S", variants);
+    if fallible {
+        item.attrs.push(Instr::new("try_map_owned", None, "StaticStr, Er| _ => Err(Er(0))?"));
+    } else {
+        item.attrs.push(Instr::new("map_owned", None, "StaticStr| _ => panic!()"));
+    }
+    tags.push(format!("fallible={}", fallible));
+    Some(FCase { item, tags })
+}
+
+/// generic hosts: a struct (named / tuple) or an enum with type, lifetime and const parameters in every combination, an
+/// optional own where clause and an optional `#[where_clause]`, under one trait instruction name (seed C20-08: what the
+/// impl header and its where clause are made of must also come from the input)
+pub fn gen_generic(ctx: &mut Ctx) -> Option<FCase> {
+    let lt = ctx.flag();
+    let ty = ctx.choose(3); // none | T | T: Clone
+    let cn = ctx.flag();
+    if !lt && ty == 0 && !cn {
+        return ctx.reject();
+    }
+    let own_where = ty != 0 && ctx.flag();
+    let instr_where = ty != 0 && ctx.flag();
+    let host = ctx.choose(3); // named struct | tuple struct | enum
+    const NAMES: [(&str, bool); 10] = [("map", false), ("map_owned", false), ("map_ref", false), ("from", false), ("into", false), ("into_existing", false), ("try_map", true), ("try_from_ref", true), ("ref_try_into", true), ("try_into_existing", true)];
+    let (name, fallible) = NAMES[ctx.choose(NAMES.len())];
+    if host == 2 && name.contains("into_existing") {
+        return ctx.reject(); // KF-C16-01
+    }
+    let mut decl = vec![];
+    let mut args = vec![];
+    let mut fields: Vec<(String, String)> = vec![("x".into(), "i32".into())];
+    if lt {
+        decl.push("'a".to_string());
+        args.push("'a".to_string());
+        fields.push(("s".into(), "&'a str".into()));
+    }
+    if ty != 0 {
+        decl.push(if ty == 2 { "T: Clone".to_string() } else { "T".to_string() });
+        args.push("T".to_string());
+        fields.push(("t".into(), "T".into()));
+    }
+    if cn {
+        decl.push("const N: usize".to_string());
+        args.push("N".to_string());
+        fields.push(("arr".into(), "[i32; N]".into()));
+    }
+    let cp = format!("Tg<{}>", args.join(", "));
+    let mk_field = |i: usize, f: &(String, String), named: bool| {
+        let mut fl = if named { Field::named(&f.0, &f.1) } else { Field::pos(&f.1) };
+        if f.0 == "t" || f.0 == "arr" {
+            fl.attrs.push(Instr::new(if fallible { "try_map" } else { "map" }, None, &if named { "~.clone()".to_string() } else { format!("{}, ~.clone()", i) }));
+        }
+        fl
+    };
+    let mut item = match host {
+        0 => Item::new_struct("S", Shape::Named, fields.iter().enumerate().map(|(i, f)| mk_field(i, f, true)).collect()),
+        1 => Item::new_struct("S", Shape::Tuple, fields.iter().enumerate().map(|(i, f)| mk_field(i, f, false)).collect()),
+        _ => Item::new_enum("S", vec![Variant { attrs: vec![], name: "A".into(), shape: Shape::Named, fields: fields.iter().enumerate().map(|(i, f)| mk_field(i, f, true)).collect() }, Variant { attrs: vec![], name: "B".into(), shape: Shape::Unit, fields: vec![] }]),
+    };
+    item.generics = format!("<{}>", decl.join(", "));
+    if own_where {
+        item.where_clause = "where T: Copy".into();
+    }
+    item.attrs.push(Instr::new(name, None, &if fallible { format!("{}, Er", cp) } else { cp.clone() }));
+    if instr_where {
+        item.attrs.push(Instr::new("where_clause", None, "T: Default"));
+    }
+    let tags = vec!["host=generic".to_string(), format!("lt={}", lt), format!("ty={}", ty), format!("const={}", cn), format!("own_where={}", own_where), format!("where_clause={}", instr_where), format!("shape={}", host), format!("name={}", name)];
     Some(FCase { item, tags })
 }
 
